@@ -8,6 +8,7 @@ import (
 	"runtime"
 	"strings"
 	"sync"
+	"sync/atomic"
 	"testing"
 	"time"
 
@@ -59,7 +60,10 @@ type Case struct {
 	RaceN    int    `json:"race_n,omitempty"`
 	// StopOn: Stop is called not at StopAtMs but in the instant a peer puts
 	// its StopOnK-th message of this kind on the wire (cfheaders | headers |
-	// block | cfilter | cfcheckpt), if that happens before StopAtMs: the
+	// block | cfilter | cfcheckpt | reorghdr = a headers message sent after
+	// the reorganisation of ReorgAtMs began | sched:<prefix> = a client
+	// goroutine reaches its StopOnK-th named point with that prefix inside a
+	// chain update and is held there), if that happens before StopAtMs: the
 	// answer and the shutdown race.
 	StopOn  string `json:"stop_on,omitempty"`
 	StopOnK int    `json:"stop_on_k,omitempty"`
@@ -67,6 +71,13 @@ type Case struct {
 	// competing (heavier) branch and announces it, so that Stop (above all
 	// with StopOn) can fall into the middle of the reorganisation.
 	ReorgAtMs int `json:"reorg_at_ms,omitempty"`
+	// RollbackStepMs > 0: the rollback of that reorganisation takes virtual
+	// time, this many milliseconds per removed block (the block handler
+	// sleeps at the named point after each block), so that the stages of
+	// Stop can fall between two removed blocks. Only applied when the client
+	// is idle at the tip when the reorganisation begins (then nobody else
+	// wants the chain-update lock the block handler holds while it sleeps).
+	RollbackStepMs int `json:"rollback_step_ms,omitempty"`
 }
 
 func genCase(t *rapid.T) Case {
@@ -129,6 +140,37 @@ func genCase(t *rapid.T) Case {
 		c.StopOn = kit.Pick(t, "stopon", []string{"cfheaders", "cfheaders", "headers", "block", "cfilter", "cfcheckpt"})
 		c.StopOnK = kit.Pick(t, "stoponk", []int{1, 1, 2, 3, 5})
 	}
+	if c.ReorgAtMs > 60 && kit.Uni(t, "slowrollback", 2) == 0 {
+		// Stop's stages after the utxo scanner (which takes 50 ms when it
+		// is idle) fall between two blocks of a slow rollback
+		c.RollbackStepMs = kit.Pick(t, "stepms", []int{1, 5, 20})
+		c.StopAtMs = c.ReorgAtMs - 50 + rapid.IntRange(-2, 6*c.RollbackStepMs).Draw(t, "into")
+		c.StopOn = ""
+		return c
+	}
+	if c.ReorgAtMs > 60 && kit.Uni(t, "stopnearreorg", 3) == 0 {
+		// Stop takes virtual time (its first stages wait for workers and
+		// peers): called a little before the reorganisation, its later
+		// stages - subscription manager, block manager - fall into the
+		// instant in which the block handler rolls the chain back.
+		c.StopAtMs = c.ReorgAtMs - rapid.IntRange(0, 60).Draw(t, "before")
+		c.StopOn = ""
+	}
+	if kit.Uni(t, "stoponsched", 5) == 0 {
+		// Stop begins while a client goroutine stands at one of the named
+		// points inside a multi-step chain update (filter-header write,
+		// rollback, header write after a rollback) and is held there for a
+		// while: the shutdown overtakes the operation.
+		c.StopOn = kit.Pick(t, "stoponsp", []string{"sched:cfwrite", "sched:cfwrite", "sched:rollback", "sched:headers"})
+		c.StopOnK = kit.Pick(t, "stoponsk", []int{1, 1, 2, 3, 4})
+	}
+	if c.ReorgAtMs > 0 && kit.Uni(t, "stoponreorg", 2) == 0 {
+		// Stop in the instant the headers of the competing branch go on
+		// the wire: the shutdown races the rollback they cause
+		c.StopOn = kit.Pick(t, "stoponr", []string{"reorghdr", "sched:rollback", "sched:rollback", "sched:headers"})
+		c.StopOnK = kit.Pick(t, "stoponrk", []int{1, 1, 2, 3})
+		c.StopAtMs = max(c.StopAtMs, c.ReorgAtMs+kit.Pick(t, "afterreorg", []int{0, 10, 3000}))
+	}
 	return c
 }
 
@@ -160,6 +202,8 @@ func runCase(t *testing.T, c Case) kit.Verdict {
 		stopEarly bool
 	)
 	var startStop func(early bool)
+	var reorgStarted atomic.Bool
+	var slowRollback atomic.Bool
 	cfg.AfterStart = func(s *netsim.Sim) {
 		done := make(chan struct{})
 		trigMu.Lock()
@@ -179,6 +223,30 @@ func runCase(t *testing.T, c Case) kit.Verdict {
 			})
 		}
 		trigMu.Unlock()
+		if c.RollbackStepMs > 0 {
+			netsim.SetSchedHook(func(point string) {
+				if point == "sched:rollback:before-ntfn" && slowRollback.Load() {
+					time.Sleep(time.Duration(c.RollbackStepMs) * time.Millisecond)
+				}
+			})
+		}
+		if strings.HasPrefix(c.StopOn, "sched:") {
+			var n atomic.Int64
+			netsim.SetSchedHook(func(point string) {
+				if !strings.HasPrefix(point, c.StopOn) || n.Add(1) != int64(c.StopOnK) {
+					return
+				}
+				trigMu.Lock()
+				f := startStop
+				trigMu.Unlock()
+				f(true)
+				// hold the operation here while Stop gets going (no
+				// sleep: client locks may be held at this point)
+				for i := 0; i < 20000; i++ {
+					runtime.Gosched()
+				}
+			})
+		}
 	}
 	setup := func(s *netsim.Sim) {
 		for i, ps := range c.Peers {
@@ -191,6 +259,9 @@ func runCase(t *testing.T, c Case) kit.Verdict {
 						k = "cfheaders"
 					case *wire.MsgHeaders:
 						k = "headers"
+						if c.StopOn == "reorghdr" && reorgStarted.Load() {
+							k = "reorghdr"
+						}
 					case *wire.MsgBlock:
 						k = "block"
 					case *wire.MsgCFilter:
@@ -309,6 +380,20 @@ func runCase(t *testing.T, c Case) kit.Verdict {
 		for i, cl := range c.Callers {
 			states[i] = &callerState{c: cl}
 		}
+		// The slow rollback is only armed when the client sits idle at
+		// the tip (filter headers level with the block headers): nobody
+		// then competes for the lock the sleeping block handler holds.
+		armSlowRollback := func() {
+			if c.RollbackStepMs == 0 {
+				return
+			}
+			_, bt, e1 := cs.BlockHeaders.ChainTip()
+			_, ft, e2 := cs.RegFilterHeaders.ChainTip()
+			if e1 == nil && e2 == nil && bt == ft && int(bt) >= c.World.Base {
+				slowRollback.Store(true)
+				v.Class("slow-rollback-armed")
+			}
+		}
 		// advance to the stop instant, starting callers on the way
 		now := 0
 		dropped := make([]bool, len(c.Peers))
@@ -337,6 +422,8 @@ func runCase(t *testing.T, c Case) kit.Verdict {
 			}
 			if c.ReorgAtMs > 0 && !reorged && c.ReorgAtMs <= now && len(w.Br) > 1 {
 				reorged = true
+				reorgStarted.Store(true)
+				armSlowRollback()
 				for _, p := range s.Peers {
 					p.SetView(w.Br[1].Tip(), true)
 				}
@@ -425,6 +512,18 @@ func runCase(t *testing.T, c Case) kit.Verdict {
 		}
 		trigMu.Unlock()
 		startStop(false)
+		if c.ReorgAtMs > c.StopAtMs && !reorged && len(w.Br) > 1 && c.ReorgAtMs-c.StopAtMs <= 60 {
+			// the reorganisation falls into the time Stop takes
+			v.Class("reorg-during-stop")
+			d := time.Duration(c.ReorgAtMs-c.StopAtMs) * time.Millisecond
+			go func() {
+				time.Sleep(d)
+				armSlowRollback()
+				for _, p := range s.Peers {
+					p.SetView(w.Br[1].Tip(), true)
+				}
+			}()
+		}
 		t0 := time.Now()
 		waitAll := func() bool {
 			select {
